@@ -4,3 +4,4 @@ import MoreExec.Props.C02
 #print axioms MoreExec.MeFuture.C02_cancel_true_sticks
 #print axioms MoreExec.MeFuture.C02_cancel_false_when_finished
 #print axioms MoreExec.MeFuture.C02_waiters_released
+#print axioms MoreExec.MeFuture.C02_cancel_sections_under_lock
